@@ -48,7 +48,7 @@ PROPS = {
             "claimed": True, "engine": "fmt",
             "level_text": ("Per shell a theorem states that the text the formatter model inserts, read by that shell's reader specification, is exactly one word equal to the (sanitised) value, for every value (induction over the string; the per-character obligations are decided by the kernel over all of ASCII against the replacer tables and character sets regenerated from /repo, and lifted to every character): "
                            "`C03_bash` (bare / double-quoted / tilde branches, no hypothesis on the characters), `C03_zsh_dflt`, `C03_zsh_dq` and `C03_zsh_sq` (the `_describe` escaping is inverted by the consumer: `zshUndescribe_describe`; default state incl. `~/` and named directories, both double-quote states, and both single-quote states, where a quote inside the value is written `'\\''` and the per-character lemma carries the mark of the re-opened quote: `run_flatMap_emit`), `C03_powershell`, `C03_xonsh` (bare, `'..'`, `r'..'` with the exact parity condition on backslashes), `C03_nushell` (bare, `\"..\"`, `~\"..\"`), `C03_tcsh`, `C03_oil_partial`, `C03_elvish`, `C03_export`. "
-                           "Where the pinned code violates the property the excluded characters are explicit hypotheses - exactly the listed findings (powershell `'` and CR; xonsh `'`, CR, a trailing odd backslash; nushell tab; tcsh braces; oil everything special) - each with a decided counterexample showing the hypothesis is needed. "
+                           "Where the pinned code violates the property the excluded characters are explicit hypotheses - exactly the listed findings (powershell `'`; xonsh `'`, a trailing odd backslash; tcsh braces; oil everything special; powershell / xonsh CR and nushell tab were such hypotheses until they were repaired: `C03_powershell_sanitised`, `C03_nushell_sanitised` state the theorems over the sanitised value without them) - each with a decided counterexample showing the hypothesis is needed. "
                            "The model is bound to the code by exact comparison of the real formatter output with the model's on every generated case, and the reader oracle is evaluated on the real output for all shells."),
             "level_note": FMT_NOTE},
     "C04": {"modules": ["Carapace.Props.C04"], "ops": [("value", {"quick": 6000, "thorough": 300000})], "rule": FMT_RULE, "assumptions": FMT_ASSUME,
